@@ -29,6 +29,8 @@ def special_docs():
         J + 'SERVER @s // srv\n  BaseUrl "https://x/"\nTAG @t // tag\nURL /rpc\n  Protocol json-rpc-2.0\n  Method m // method\n    Tags @t\n    Params\n      {"p": @ty}\n    Result\n      [@ty]\nTYPE @ty\n{"k": "v"}\nGET /q/{id}\n  Tags @t\n  Query "a=1"\n    {"a": 1}\n  200 @ty\n',
         # slices the serialisers walk: repeated and several tag names (own and URL-level), several servers, path variables
         J + 'TAG @cats\nTAG @pets\nTAG @dogs\nSERVER @s1\n  BaseUrl "https://a/"\nSERVER @s2\n  BaseUrl "https://b/"\nGET /c/{id}/{k}\n  Tags @cats @cats @pets\n  200 any\nURL /u/{x}\n  Tags @dogs @dogs @cats @pets\n  GET\n    200 any\n  POST\n    Tags @pets @cats @cats\n    200 any\n',
+        # or-shortcuts, type shortcuts and enum rules: rules the schema library generates and both exporters read
+        J + 'TYPE @cat\n{"kind": "cat"}\nTYPE @dog\n{"kind": "dog"}\nENUM @sz\n["s", "m"]\nGET /pets\n  200\n    {\n      "pet": @cat | @dog,\n      "one": @cat,\n      "size": "s", // {enum: @sz}\n      "list": [@cat | @dog]\n    }\nPOST /pets\n  Request\n    @cat | @dog\n  200 any\n',
         # notations any / empty as user types and bodies
         J + 'TYPE @a any\nGET /e\n  200 empty\n  201 any\n',
     ]
